@@ -45,6 +45,8 @@ struct Cfg {
     fault: Option<(u64, FaultKind)>,
     reject_budget: u32,
     fixed_step: Option<f64>,
+    /// warmup length handed to the adaptation strategy (2: no mass-matrix change within a history)
+    num_tune: u64,
 }
 
 fn target(dim: usize) -> Target {
@@ -119,6 +121,8 @@ struct MirrorDraw {
     step_size_used: f64,
     step_size_after: f64,
     options: NutsOptions,
+    /// the adaptation after this draw replaced the transformation
+    transform_changed: bool,
 }
 
 fn start_pos(dim: usize) -> Vec<f64> {
@@ -139,7 +143,7 @@ macro_rules! with_strategy {
     ($c:expr, $math:ident, |$strategy:ident, $ham:ident, $statopt:ident| $body:expr) => {{
         if $c.lowrank {
             let a = adapt_opts(LowRankSettings::default(), $c.fixed_step);
-            let $strategy = GlobalStrategy::<M, LowRankMassMatrixStrategy>::new(&mut $math, a, 2, 0);
+            let $strategy = GlobalStrategy::<M, LowRankMassMatrixStrategy>::new(&mut $math, a, $c.num_tune, 0);
             let mm = LowRankMassMatrix::new(&mut $math, LowRankSettings::default());
             let $ham = TransformedHamiltonian::new(&mut $math, mm, $c.kind);
             let $statopt = StatOptions::<M, GlobalStrategy<M, LowRankMassMatrixStrategy>> {
@@ -151,7 +155,7 @@ macro_rules! with_strategy {
             $body
         } else {
             let a = adapt_opts(DiagAdaptExpSettings::default(), $c.fixed_step);
-            let $strategy = GlobalStrategy::<M, DiagAdaptStrategy<M>>::new(&mut $math, a, 2, 0);
+            let $strategy = GlobalStrategy::<M, DiagAdaptStrategy<M>>::new(&mut $math, a, $c.num_tune, 0);
             let mm = nv::diag_mass_matrix_new(&mut $math, false);
             let $ham = TransformedHamiltonian::new(&mut $math, mm, $c.kind);
             let $statopt = StatOptions::<M, GlobalStrategy<M, DiagAdaptStrategy<M>>> {
@@ -288,9 +292,11 @@ fn run_mirror(c: &Cfg, stream: &[RngCall]) -> Result<Vec<MirrorDraw>, String> {
             let opts_now = options.clone();
             let (st, info) = nv::nuts_draw(&mut math, &mut state, &mut rng, &mut ham, &options, &mut tee).map_err(|e| format!("mirror draw: {e}"))?;
             let pos = math.box_array(st.point().position()).to_vec();
+            let id0 = { use nuts_rs::verif::Transformation; ham.transformation_mut().transformation_id(&mut math) };
             strategy
                 .adapt(&mut math, &mut options, &mut ham, d as u64, &tee.inner, &st, &mut rng)
                 .map_err(|e| format!("mirror adapt: {e}"))?;
+            let id1 = { use nuts_rs::verif::Transformation; ham.transformation_mut().transformation_id(&mut math) };
             out.push(MirrorDraw {
                 rec: rec.borrow().clone(),
                 answers: answers.borrow().clone(),
@@ -301,6 +307,7 @@ fn run_mirror(c: &Cfg, stream: &[RngCall]) -> Result<Vec<MirrorDraw>, String> {
                 step_size_used: step_used,
                 step_size_after: ham.step_size(),
                 options: opts_now,
+                transform_changed: id0 != id1,
             });
             state = st;
         }
@@ -485,6 +492,7 @@ pub fn acceptance_statistic_partial(tier: Tier) -> Partial {
                             fault,
                             reject_budget: 1,
                             fixed_step,
+                            num_tune: 2,
                         });
                     }
                 }
@@ -596,6 +604,7 @@ pub fn run(tier: Tier, _replay: Option<String>) -> i32 {
                                 n_draws,
                                 fault,
                                 reject_budget: tier.pick(2, 3),
+                                num_tune: 2,
                             });
                             }
                         }
@@ -604,7 +613,38 @@ pub fn run(tier: Tier, _replay: Option<String>) -> i32 {
             }
         }
     }
-    report.bounds = json!({"configurations": cfgs.len(), "draws_per_history": "2-3", "reject_budget": tier.pick(2, 3)});
+    // histories long enough for the mass-matrix adaptation to replace the transformation between
+    // two trajectories (third warmup draw of a 10-draw warmup): the draw after the change starts
+    // from a state that was whitened under the previous transformation
+    for lowrank in [false, true] {
+        for kind in [KineticEnergyKind::Euclidean, KineticEnergyKind::ExactNormal] {
+            for dim in [1usize, 2] {
+                for maxdepth in [1u64, 2] {
+                    for fixed_step in [Some(0.25), None] {
+                        if lowrank && dim < 2 {
+                            continue;
+                        }
+                        cfgs.push(Cfg {
+                            fixed_step,
+                            name: format!("{}-{kind:?}-dim{dim}-maxdepth{maxdepth}-tune10-draws{}-step{fixed_step:?}", if lowrank { "lowrank" } else { "diag" }, tier.pick(4, 5)),
+                            lowrank,
+                            kind,
+                            dim,
+                            maxdepth,
+                            mindepth: 0,
+                            target_time: None,
+                            max_energy_error: 1000.0,
+                            n_draws: tier.pick(4, 5),
+                            fault: None,
+                            reject_budget: 1,
+                            num_tune: 10,
+                        });
+                    }
+                }
+            }
+        }
+    }
+    report.bounds = json!({"configurations": cfgs.len(), "draws_per_history": "2-3 (4-5 for the warmup histories with a transformation change)", "reject_budget": tier.pick(2, 3)});
     mc_core::par_for_each(&cfgs, |_, c| {
         let mut p = Partial::new();
         let mut stop = false;
@@ -630,6 +670,9 @@ pub fn run(tier: Tier, _replay: Option<String>) -> i32 {
                     }
                     Ok(mirror) => {
                         p.validated += 1;
+                        if mirror.iter().take(mirror.len().saturating_sub(1)).any(|m| m.transform_changed) {
+                            p.count("histories_with_a_transformation_change_between_draws", 1);
+                        }
                         if !judge(c, &real, &mirror, &ctx.choices(), &mut p) {
                             stop = true;
                         }
